@@ -76,25 +76,26 @@ PENDING = {
 
 # added after the fourth round of seeded changes (DESIGN.md 11.1): one more sentence per check
 EXTRA = {
-    "C01": " Texts may be empty or blank; every mega conversation is also compared with its single-read twin (same callbacks however the input is cut).",
+    "C01": " Texts may be empty or blank; every mega conversation is also compared with its single-read twin (same callbacks however the input is cut). A fifth of the small cases meet one transient transport error (verbatim-prefix oracle).",
     "C02": " Texts may be empty or blank; a group injects one transient Interrupted/WouldBlock/TimedOut per conversation (callbacks must stay a verbatim prefix of the model's list, the whole list if run_on returns Ok); every eighth mega conversation is repeated over a real loopback TCP socket through run_on_tcp and must give the same callbacks, result class and bytes.",
-    "C03": " Replies of exactly 253..259 and 509..515 (thorough: up to 4099) wire packets assembled from random chained sets, each followed by a distinguishable command and a sentinel. NULL cells; every row must split into exactly one cell per advertised column.",
+    "C03": " Replies of exactly 253..259 and 509..515 (thorough: up to 4099) wire packets assembled from random chained sets, each followed by a distinguishable command and a sentinel. NULL cells; every row must split into exactly one cell per advertised column. No-reply commands between sentinels; rows begun with write_col and completed by write_row; replies of 2^16+-1 packets.",
     "C04": " Unfinished rows that already filled a 2^24-1 packet and are then abandoned (finish_error / finish / drop): either a call reports the refusal or the whole output is well-framed and conformant; mega conversations are byte-compared with their single-read, unlimited-write twin. Mid-sized messages (9 KB..300 KB) behind 0..251 small rows under write limits 100..65536.",
-    "C05": " Mega conversations are byte-compared with their single-read twin (ids cannot depend on how the input was cut).",
-    "C06": " A sized-cell sweep (4 KiB..64 KiB around the powers of two, 1..4 MiB) mixed with NULLs, small cells and small rows. Transports are varied per case (short writes, handshake, schedule, entry point).",
-    "C07": " A sized-cell sweep (4 KiB..64 KiB around the powers of two, 1..4 MiB) mixed with NULLs, small cells and small rows. Native integers of every width into every integer column in the exact-if-accepted group; transports varied per case.",
-    "C09": " Every case starts with a random legal handshake response (4.1 or 3.20 layout, capability class). Short writes 1..65536, read schedules and entry point varied per case.",
+    "C05": " Mega conversations are byte-compared with their single-read twin (ids cannot depend on how the input was cut). Transient errors: ids are judged whenever run_on returns Ok; destructor-written endings with a transient error at every operation.",
+    "C06": " A sized-cell sweep (4 KiB..64 KiB around the powers of two, 1..4 MiB) mixed with NULLs, small cells and small rows. Transports are varied per case (short writes, handshake, schedule, entry point). A quarter of the resultsets are the last member of a random chain; rows may mix write_col and write_row; an eighth of the cases run over a TLS upgrade.",
+    "C07": " A sized-cell sweep (4 KiB..64 KiB around the powers of two, 1..4 MiB) mixed with NULLs, small cells and small rows. Native integers of every width into every integer column in the exact-if-accepted group; transports varied per case. Rows may mix write_col and write_row; an eighth of the cases run over a TLS upgrade.",
+    "C09": " Every case starts with a random legal handshake response (4.1 or 3.20 layout, capability class). Short writes 1..65536, read schedules and entry point varied per case. An eighth of the cases run over a TLS upgrade.",
     "C11": " A shim with only the required methods (trait defaults in force) and TLS upgrades with varied SSLRequests (capabilities, max-packet, charset, reserved bytes) are judged by the same clauses. One transient transport error per connection with the handshake response in pieces: user name exact or no call, never acknowledged without it.",
-    "C12": " Commands of 16 MiB and more (QUERY, LONG_DATA+EXECUTE) in lock-step under four read patterns.",
+    "C12": " Commands of 16 MiB and more (QUERY, LONG_DATA+EXECUTE) in lock-step under four read patterns. Nothing may be unflushed at any read of any conversation, also those that end early.",
     "C15": " Sessions of 2-6 integer resultsets of different widths on one connection, every cell a must-accept pair, decoded with the received definitions. Transports varied per case.",
-    "C18": " SSLRequest and in-TLS response vary (capabilities, max-packet, charset, reserved bytes); the client may put every command into a TLS record of its own. An issued client certificate (root, intermediate, leaf): the whole presented chain is compared.",
-    "C19": " TLS connections whose stream ends inside the SSLRequest, inside a TLS-handshake record, or inside the record of the handshake response or of a command: an error is demanded, and no callback for anything the cut record carried. finish_error with a pending complete row in the enumeration corpus.",
+    "C18": " SSLRequest and in-TLS response vary (capabilities, max-packet, charset, reserved bytes); the client may put every command into a TLS record of its own. An issued client certificate (root, intermediate, leaf): the whole presented chain is compared. One transient error on one server write with QUIT pipelined: if run_on returns Ok the decrypted bytes equal the plaintext run's.",
+    "C19": " TLS connections whose stream ends inside the SSLRequest, inside a TLS-handshake record, or inside the record of the handshake response or of a command: an error is demanded, and no callback for anything the cut record carried. finish_error with a pending complete row in the enumeration corpus. The shim's own error returned in the middle of a response; WouldBlock/TimedOut among the injected kinds; a 1100-row conversation.",
     "C13": " Zero-column finish_error sites; the ERR must be the statement's reply (exactly the parts the program denotes).",
     "C14": " Transports are varied per case (short writes 1..65536, handshake layout, read schedule, entry point).",
-    "C16": " Transports are varied per case (handshake layout, read schedule, entry point).",
-    "C17": " Transports are varied per case (handshake layout, read schedule, entry point).",
+    "C16": " Transports are varied per case (handshake layout, read schedule, entry point). Executions whose callback drops the parser unused, only counts or takes one item; edge statement ids.",
+    "C17": " Transports are varied per case (handshake layout, read schedule, entry point). Edge statement ids in random preparation order.",
     "C08": " Transports are varied per case (handshake layout, read schedule, entry point).",
-    "C20": " Length-encoded EXECUTE parameters whose multi-byte length prefix is cut short, for every length-encoded type code. Well-formed requests of 2^24-1 + tail bytes for tails 0..70000 (thorough: up to 2^24+6) under five read patterns must be served.",
+    "C10": " 50-600 statements open at once with ids across the 32-bit range, closed, re-prepared and executed in random order.",
+    "C20": " Length-encoded EXECUTE parameters whose multi-byte length prefix is cut short, for every length-encoded type code. Well-formed requests of 2^24-1 + tail bytes for tails 0..70000 (thorough: up to 2^24+6) under five read patterns must be served. Replies of 252..260 and 508..516 packets in lock-step: a reply or an error return, never silence.",
 }
 
 ALL = ["C%02d" % i for i in range(1, 21)]
